@@ -326,13 +326,13 @@ def vk_cmd(scn, src, outdir, bounds, total, deadline, family, opts=(), workers=1
 
 
 # Programs a VK scenario may execute for real (vk/qmailenv.hpp exec table) minus those never started under the virtual kernel
-# (qmail-remote is always a stand-in there; splogger, tcp-env, predate, qbiff are not used by any scenario).
+# (splogger, tcp-env, predate, qbiff are not used by any scenario).
 VK_PROGRAMS = ("qmail-queue qmail-send qmail-clean qmail-local qmail-lspawn qmail-rspawn qmail-getpw qmail-smtpd qmail-qmtpd qmail-qmqpd "
                "qmail-pop3d qmail-popup qmail-inject qmail-newu qmail-newmrh qmail-start forward condredirect bouncesaying preline except "
-               "qreceipt qmail-pw2u").split()
+               "qreceipt qmail-pw2u qmail-remote").split()
 PURE_IMPORTS = set("malloc free realloc calloc memcmp memcpy memmove memset strcmp strncmp strcpy strdup strlen strchr strrchr sigaddset sigemptyset "
                    "__errno_location __h_errno_location __cxa_finalize __gmon_start__ _ITM_deregisterTMCloneTable _ITM_registerTMCloneTable "
-                   "__stack_chk_fail __libc_start_main abort".split())
+                   "__stack_chk_fail __libc_start_main abort dn_expand __dn_expand __res_state".split())
 _import_guard_done = set()
 
 
